@@ -1,12 +1,12 @@
 SPECIFICATION GSpec
 CONSTANTS
   Procs = {"c1", "c2"}
-  Hosts = {"a", "b", "c"}
-  Size = 2
+  Hosts = {"a", "b"}
+  Size = 1
   MaxCalls = 1
-  MaxExpire = 2
+  MaxExpire = 0
   Kinds = {"lookup", "dial"}
-  ZeroDuration = FALSE
+  ZeroDuration = TRUE
   Faults = TRUE
 INVARIANTS TypeOK SizeBound ServedFreshAndSequential NoCrossHost RefinesSequential MissReturnsOwnAnswer Emit
 CHECK_DEADLOCK FALSE
